@@ -2,7 +2,7 @@
    `step : Circuit → op → Circuit * outcome` (Base/Api.v) is the model of the eight mutators, partial effects of a
    rejected call included; `Inv`, `pins_ok`, `edges` are defined in Model/ApiInv.v. *)
 From stdpp Require Import strings gmap sets.
-From CG Require Import Model.ApiInv Model.ApiOrder Proofs.ApiProofs Proofs.ApiFillProofs.
+From CG Require Import Model.ApiInv Model.ApiOrder Proofs.ApiProofs Proofs.ApiFillProofs Proofs.ApiFlagsProofs.
 Open Scope string_scope.
 
 (* obligation on the regenerated type lists of circuit.py (connect, add, supported_types): as sets they are the
@@ -140,6 +140,43 @@ Print Assumptions C07_pins_side_nodot.
 Theorem C07_pins_basic : ∀ C o R, basic_op o = true → pins_ok C R → pins_ok (step C o).1 (R ∪ removed_by o).
 Proof. exact step_pins_basic. Qed.
 Print Assumptions C07_pins_basic.
+
+(* ---------------------------------------------------------------- add with the parser flags (outside the property text) *)
+(* add(..., add_connected_nodes=True): missing neighbours are created as buffers; the invariant is preserved as for a plain add *)
+Theorem C07_add_connected_nodes : ∀ C n t fi fo fl, af_redef fl = false → Inv C → Inv (xstep C (XAdd n t fi fo fl)).1.
+Proof.
+  intros C n t fi fo fl Hr Hi. simpl. pose proof (add_g_wired_conn (c_g C) n t fi fo fl C07_tables_ok Hr Hi) as H.
+  destruct (add_g _ _ _ _ _ _) as [[g oc] nm]. exact H.
+Qed.
+Print Assumptions C07_add_connected_nodes.
+(* add(..., allow_redefinition=True) may retype a node that is already wired.  What survives, for any flags, any arguments,
+   any outcome: every wire ends at a node and every node has a documented type (Inv0).  The fan-in / fan-out clauses and the
+   pin clause do not survive (C07_redefinition_breaks). *)
+Theorem C07_Inv_Inv0 : ∀ C, Inv C → Inv0 C.
+Proof. intros C. apply wired_wired0. Qed.
+Print Assumptions C07_Inv_Inv0.
+Theorem C07_add_any_flags_weak : ∀ C n t fi fo fl, Inv0 C → Inv0 (xstep C (XAdd n t fi fo fl)).1.
+Proof.
+  intros C n t fi fo fl Hi. simpl. pose proof (add_g_wired0 (c_g C) n t fi fo fl C07_tables_ok Hi) as H.
+  destruct (add_g _ _ _ _ _ _) as [[g oc] nm]. exact H.
+Qed.
+Print Assumptions C07_add_any_flags_weak.
+Definition redef := {| af_out := false; af_conn := false; af_redef := true; af_uid := false |}.
+Definition ex_redef : Circuit :=
+  {| c_name := "t"; c_bbs := {[ "f0" := {| bb_name := "snk"; bb_in := {[ "d" ]}; bb_out := ∅ |} ]};
+     c_g := {[ "g" := mk_node And false {[ "a"; "b" ]} ]} ∪ {[ "a" := mk_node Input false ∅ ]} ∪ {[ "b" := mk_node Input false ∅ ]} ∪
+            {[ "f0.d" := mk_node BbIn false {[ "g" ]} ]} |}.
+Example C07_redefinition_breaks :
+  invb ex_redef = true ∧ pins_okb ex_redef ∅ = true ∧
+  (* and -> buf keeps both drivers; and -> input keeps its fan-in; input with loads -> bb_input; a pin is retyped *)
+  invb (xstep ex_redef (XAdd "g" Buf [] [] redef)).1 = false ∧
+  invb (xstep ex_redef (XAdd "g" Input [] [] redef)).1 = false ∧
+  invb (xstep ex_redef (XAdd "a" BbIn [] [] redef)).1 = false ∧
+  pins_okb (xstep ex_redef (XAdd "f0.d" Buf [] [] redef)).1 ∅ = false ∧
+  (λ x, (xstep ex_redef x).2) <$> [XAdd "g" Buf [] [] redef; XAdd "g" Input [] [] redef; XAdd "a" BbIn [] [] redef; XAdd "f0.d" Buf [] [] redef]
+    = [Done; Done; Done; Done] ∧
+  forallb (λ x, inv0b (xstep ex_redef x).1) [XAdd "g" Buf [] [] redef; XAdd "g" Input [] [] redef; XAdd "a" BbIn [] [] redef; XAdd "f0.d" Buf [] [] redef] = true.
+Proof. vm_compute. repeat split; reflexivity. Qed.
 
 (* ---------------------------------------------------------------- non-vacuity *)
 Definition ex_sub : Circuit :=
